@@ -246,6 +246,8 @@ def offset_discipline(ctx: Ctx) -> None:
                                (isinstance(a, ast.AugAssign) and isinstance(a.target, ast.Name) and a.target.id == name and isinstance(a.op, ast.Add))]
                         if not adv:
                             continue
+                        if not any(isinstance(x, ast.Name) and x.id == name and isinstance(x.ctx, ast.Load) for x in ast.walk(lp)):
+                            continue        # a tally that is only accumulated (never read in the loop) is not a running offset
                         # only top-level-or-branch updates (an update inside an inner loop is a different pattern)
                         n += 1
                         ok, where = _offset_paths(lp, name)
